@@ -257,7 +257,14 @@ def run(out, tier, model_ok=True):
     inst = se.gen_instance(rng, tier, max_admitted=5, theme=rng.choice(['default', 'default', 'default', 'tfixed_budget', 'share_lo']))
     if rng.random() < 0.5:
       inst['params']['n_designs'] = rng.choice([2, 3, 5])
-    if rng.random() < 0.15 and len(inst['geos']) >= 2:
+    forced_twin = i % 10 == 3
+    if forced_twin:
+      # every tenth history: two geos only, one the twin of the other, nothing constrained: any search must compare them
+      inst['geos'] = inst['geos'][:1]
+      inst['rows'] = [r for r in inst['rows'] if r[0] == inst['geos'][0]]
+      inst['elig'] = None
+      inst['params'] = {k: v for k, v in inst['params'].items() if k in ('n_test', 'iroas', 'n_designs', 'n_pretest_max')}
+    if (rng.random() < 0.15 or forced_twin) and len(inst['geos']) >= 1:
       # a market reported twice under two IDs: perfectly correlated candidates make a search raise ValueError
       src = rng.choice(inst['geos'])
       inst['rows'] += [['twin', d, v] for g, d, v in inst['rows'] if g == src]
@@ -268,6 +275,8 @@ def run(out, tier, model_ok=True):
         if rng.random() < 0.7:
           inst['params'].pop(k, None)
     ops = gen_ops(rng, min(5, len(inst['geos'])))
+    if forced_twin:
+      ops = [o for o in ops if o[0] != 'sibling'] + [('greedy',), ('results',), ('exhaustive',), ('results',)]
     extras = {}
     if rng.random() < 0.45:       # reconfiguration of the object between calls
       field, val = rng.choice([('n_designs', 2), ('geo_ratio_tolerance', 1.0), ('geo_ratio_tolerance', 0.25),
